@@ -184,6 +184,8 @@ def run(ck, m):
                 return False
             if s.kind == "test" and lab == "true" and "self._closed" in [norm(v_) for v_ in flatten_boolop(s.ast, ast.And)]:
                 return False  # already closed: nothing to close
+            if s.kind == "test" and lab == "false" and isinstance(s.ast, ast.UnaryOp) and isinstance(s.ast.op, ast.Not) and norm(s.ast.operand) == "self._closed":
+                return False  # (the same case, reached as the false edge of `if not self._closed:`)
             return True
         p = None
         for ex in gh.exits():
